@@ -45,6 +45,12 @@ let () =
         let parts = Stdlib.List.map parse_part ps in
         Printf.printf "X %d %s\n" (int_of_z (complex_sev (z_of_int (int_of_string own)) parts))
           (String.concat "" (Stdlib.List.map (fun p -> if part_counts p then "1" else "0") parts))
+      | "R" :: flags :: k :: _ ->
+        (* R <flags: one of 0|1 per attribute, 1 = redefining> <k>  -> severity of a record with k good parameters *)
+        let attrs = Stdlib.List.init (String.length flags) (fun i -> flags.[i] = '1') in
+        let nul = z_of_int 3 in
+        let sevs = Stdlib.List.init (int_of_string k) (fun _ -> nul) in
+        Printf.printf "R %d\n" (int_of_z (RecRead.record_sev (fun _ -> nul) attrs (RecRead.params sevs)))
       | "I" :: ss ->
         Printf.printf "I %d\n" (int_of_z (inst_sev (Stdlib.List.map (fun s -> z_of_int (int_of_string s)) ss)))
       | _ -> ()
